@@ -18,6 +18,7 @@ import (
 	"strconv"
 	"strings"
 	"sync"
+	"sync/atomic"
 	"time"
 	"unicode"
 	"unicode/utf8"
@@ -1980,7 +1981,7 @@ func funcNow(any) any {
 	return timeToEpoch(time.Now())
 }
 
-func funcMatch(v, re, fs, testing any, cache *sync.Map) any {
+func funcMatch(v, re, fs, testing any, cache *regexpCache) any {
 	var name string
 	if testing == true {
 		name = "test"
@@ -2051,9 +2052,17 @@ func funcMatch(v, re, fs, testing any, cache *sync.Map) any {
 	return res
 }
 
-func compileRegexp(re, flags string, cache *sync.Map) (*regexp.Regexp, error) {
+// regexpCache caches the compiled regular expressions of a query. The number
+// of the entries is limited because the regular expressions can be computed
+// from the inputs.
+type regexpCache struct {
+	m sync.Map
+	n atomic.Int32
+}
+
+func compileRegexp(re, flags string, cache *regexpCache) (*regexp.Regexp, error) {
 	key := [2]string{re, flags}
-	if r, ok := cache.Load(key); ok {
+	if r, ok := cache.m.Load(key); ok {
 		return r.(*regexp.Regexp), nil
 	}
 	if strings.IndexFunc(flags, func(r rune) bool {
@@ -2071,7 +2080,9 @@ func compileRegexp(re, flags string, cache *sync.Map) (*regexp.Regexp, error) {
 	if err != nil {
 		return nil, fmt.Errorf("invalid regular expression %q: %s", re, err)
 	}
-	cache.Store(key, r)
+	if cache.n.Add(1) <= 1000 {
+		cache.m.Store(key, r)
+	}
 	return r, nil
 }
 
